@@ -20,6 +20,8 @@ import gen  # noqa: E402
 
 REPO = gen.REPO
 GEN_DIR = os.path.join(VERIF, 'gen')
+# development aid (tools/seedtest.py): keep the committed evidence untouched while checks run against a modified tree
+EVIDENCE_DIR = os.environ.get('VERIF_EVIDENCE_DIR', os.path.join(VERIF, 'evidence'))
 ALL_PROPS = ['C%02d' % i for i in range(1, 18)]
 
 # which witness-search oracle of /verif/replay corresponds to a property (best effort, never decides)
@@ -273,7 +275,7 @@ def main():
         log('unknown property %s' % prop)
         return 2
     os.makedirs(GEN_DIR, exist_ok=True)
-    os.makedirs(os.path.join(VERIF, 'evidence'), exist_ok=True)
+    os.makedirs(EVIDENCE_DIR, exist_ok=True)
     modes = ['lenient'] + (['strict'] if prop in STRICT_PROPS else [])
     if a.tier == 'thorough':
         modes = ['lenient', 'strict']
@@ -315,7 +317,7 @@ def main():
             res = run_verus(out, extra + ['--smt-option', 'smt.random_seed=7'])
             os.environ.pop('VERIF_RLIMIT')
             failures, undecided, compile_errors = classify(res['diags'], lm, out)
-        vac = vacuity_run(mode, prop, tag) if not failures and not compile_errors else {'skipped': 'main run has failures'}
+        vac = vacuity_run(mode, prop, tag, force) if not failures and not compile_errors else {'skipped': 'main run has failures'}
         failures, downgraded = downgrade_uncontracted(failures, report, lm, open(out).read())
         undecided += downgraded
         results[mode] = {'report': report, 'lm': lm, 'res': res, 'failures': failures, 'undecided': undecided,
@@ -354,11 +356,11 @@ def downgrade_uncontracted(failures, report, lm, text):
     return keep, down
 
 
-def vacuity_run(mode, prop, tag):
+def vacuity_run(mode, prop, tag, force=None):
     """twins that claim `r is Err` / `false` under the same preconditions, and the consistency probes: each must FAIL"""
     out = os.path.join(GEN_DIR, 'vac_%s_%s.rs' % (mode, tag))
     try:
-        report, linemap = gen.generate(mode, out, [prop])
+        report, linemap = gen.generate(mode, out, [prop], force or {})
     except (gen.GenError, gen.LexError) as e:
         return {'error': 'generation failed: %s' % e}
     lm = LineMap(linemap)
@@ -371,7 +373,7 @@ def vacuity_run(mode, prop, tag):
     for d in res['diags']:
         if d.get('level') != 'error':
             continue
-        if d.get('code') is not None:
+        if d.get('code') is not None or 'not supported' in d.get('message', '') or 'unsupported' in d.get('message', '').lower():
             compile_err = d.get('message')
         for sp in d.get('spans', []):
             for f in twins:
@@ -468,9 +470,13 @@ def relevant(props, prop):
     return prop in props or '*' in props
 
 
+def explicit(props, prop):
+    return prop in props
+
+
 def finish(prop, tier, seed, results, t_start, extra=None):
     known = [k for k in load_known() if k.get('property') == prop]
-    known_labels = {k['label']: k for k in known if k.get('status') == 'known'}
+    known_labels = {k['label']: k for k in known if k.get('status') == 'known' and k.get('label')}
     violations, known_hits, undecided_msgs = [], [], []
     obligations = 0
     discharged = 0
@@ -481,8 +487,13 @@ def finish(prop, tier, seed, results, t_start, extra=None):
         lm = r['lm']
         failed_labels = {}
         for f in r['failures']:
-            if relevant(f['props'], prop):
+            if explicit(f['props'], prop):
                 failed_labels.setdefault(f['label'], []).append(f)
+            elif '*' in f['props']:
+                # a clause every proof leans on (invariant precondition, accessor, induction lemma) failed: the proofs
+                # of this property are unsupported, which is undecided, not a violation of this property
+                undecided_msgs.append('%s: supporting obligation %s failed (%s); proofs that depend on it are not decided'
+                                      % (mode, f['label'], f['message'][:120]))
         labels_here = [l for l in lm.labels if relevant(l['props'], prop)]
         # an obligation = one labelled clause instance in the generated text (copies count separately)
         obligations += len(labels_here)
@@ -496,7 +507,7 @@ def finish(prop, tier, seed, results, t_start, extra=None):
             fns.add(l['label'].split('::closure#')[0].split('::loop#')[0].rsplit('::', 1)[0])
         fn_contracted |= fns
         fns_explicit = set(l['label'].split('::closure#')[0].split('::loop#')[0].rsplit('::', 1)[0]
-                           for l in lm.labels if prop in l['props'])
+                           for l in lm.labels if prop in l['props'] or ('*' in l['props'] and not l['label'].endswith('::inv.wf')))
         for q, why in (r['report'].get('unextractable') or {}).items():
             if q in fns_explicit:
                 undecided_msgs.append('%s: %s is outside the extraction rules / verifier subset (%s); its clauses are not decided'
@@ -567,7 +578,7 @@ def finish(prop, tier, seed, results, t_start, extra=None):
         ev['violations'] = len(violations) + len(real_hits)
     if undecided_msgs and not violations:
         ev['coverage']['undecided'] = undecided_msgs[:10]
-    json.dump(ev, open(os.path.join(VERIF, 'evidence', '%s.json' % prop), 'w'), indent=1)
+    json.dump(ev, open(os.path.join(EVIDENCE_DIR, '%s.json' % prop), 'w'), indent=1)
     for base, k in known_hits:
         log('KNOWN-FINDING: property=%s %s %s' % (prop, base, k.get('what_fails', '')))
     # findings recorded by a concrete history on the real code (no failing obligation: the proof holds only inside a
@@ -587,7 +598,7 @@ def finish(prop, tier, seed, results, t_start, extra=None):
             if p.returncode == 3:
                 log('KNOWN-FINDING: property=%s %s %s' % (prop, k.get('id'), k.get('what_fails', '')))
         ev['coverage']['known_findings_replayed'] = rk
-        json.dump(ev, open(os.path.join(VERIF, 'evidence', '%s.json' % prop), 'w'), indent=1)
+        json.dump(ev, open(os.path.join(EVIDENCE_DIR, '%s.json' % prop), 'w'), indent=1)
     for hit in real_hits:
         log('VIOLATION property=%s replay=%s' % (prop, hit))
     if real_hits and not violations:
